@@ -269,7 +269,7 @@ def main():
                      nofail=True, what="model and declarative spec disagree")
     ck.proof_failure_violation(bool(fails))
     ck.finish(trusted_base=[vlib.KERNEL_TB, vlib.EXTRACTION_TB, "shim/sysshim.c (serves getpwnam, logs setgroups/setgid/setuid/execv, injects their failure)", "stand-in bin/qmail-local (shell script printing id and arguments)"],
-              assumptions=["the constant database is abstracted to first-match lookup by exact key (byte layout and hashing exercised through the real cdbmss/cdb_seek, incl. truncated files, not modelled)",
+              assumptions=["Local/Assign.v works on the record list; Base/Cdb.v proves that the file image (hash tables, linear probing) answers as that list does (cdb_first_record_with_key, lookup_in_file_image_is_table_lookup) and users/cdb is compared byte for byte with cdb_make(newu text); file sizes below 2^32",
                            "uid/gid strings in users/assign are decimal and below 2^32", "fork/exec/setuid semantics are the kernel's"])
 
 def replay(path):
